@@ -33,6 +33,18 @@ type verifEngine struct {
 	tq, eq  []*LockQueue
 	stopped bool
 	recycle bool
+	threads []*vthread
+	cur     *vthread
+	forced  bool
+	quiet   bool
+	bulkOk, bulkOther int
+}
+
+// a scheduled request: runs in its own goroutine between yield points (verifPoint hooks), one at a time
+type vthread struct {
+	resume chan struct{}
+	ev     chan int // yield point number, or -1 when the goroutine finished
+	wake   bool     // false: parked before the shard mutex (points 9/10); true: parked in front of / inside a wake-up pass
 }
 
 func vn16(b [16]byte) uint64 {
@@ -96,6 +108,18 @@ func (e *verifEngine) newDB(t0 int64, aoftime uint8) {
 	e.tq = make([]*LockQueue, 5)
 	e.eq = make([]*LockQueue, 5)
 	e.stopped = false
+	// goroutines still parked from the previous case run to completion unobserved
+	e.forced = true
+	for _, t := range e.threads {
+		t.resume <- struct{}{}
+		for p := <-t.ev; p != -1; p = <-t.ev {
+			t.resume <- struct{}{}
+		}
+	}
+	e.forced = false
+	e.threads = nil
+	e.cur = nil
+	e.installHook()
 }
 
 func (e *verifEngine) conn(id int) *MemWaiterServerProtocol {
@@ -105,6 +129,17 @@ func (e *verifEngine) conn(id int) *MemWaiterServerProtocol {
 	c := NewMemWaiterServerProtocol(e.slock)
 	cid := id
 	_ = c.SetResultCallback(func(_ *MemWaiterServerProtocol, command *protocol.LockCommand, result uint8, lcount uint16, lrcount uint8, data []byte) error {
+		if e.forced {
+			return nil
+		}
+		if e.quiet {
+			if result == protocol.RESULT_SUCCED {
+				e.bulkOk++
+			} else {
+				e.bulkOther++
+			}
+			return nil
+		}
 		fmt.Fprintf(e.out, "ev reply %d %d %d %d %d %d %d %d %s\n", cid, vn16(command.RequestId), result, lcount, lrcount,
 			vn16(command.LockId), command.Count, command.Rcount, vhex(data))
 		return nil
@@ -212,12 +247,14 @@ func (e *verifEngine) wheelFreed() int {
 func (e *verifEngine) snapshot() {
 	db := e.db
 	st := db.GetState()
-	fmt.Fprintf(e.out, "snap now=%d ct=%d ce=%d L=%d U=%d LD=%d W=%d K=%d T=%d E=%d UE=%d uafw=%d\n", db.currentTime, db.checkTimeoutTime, db.checkExpriedTime,
-		st.LockCount, st.UnLockCount, int32(st.LockedCount), int32(st.WaitCount), int32(st.KeyCount), st.TimeoutedCount, st.ExpriedCount, st.UnlockErrorCount, e.wheelFreed())
+	fmt.Fprintf(e.out, "snap now=%d ct=%d ce=%d L=%d U=%d LD=%d W=%d K=%d T=%d E=%d UE=%d uafw=%d thr=%d\n", db.currentTime, db.checkTimeoutTime, db.checkExpriedTime,
+		st.LockCount, st.UnLockCount, int32(st.LockedCount), int32(st.WaitCount), int32(st.KeyCount), st.TimeoutedCount, st.ExpriedCount, st.UnlockErrorCount, e.wheelFreed(), len(e.threads))
 	for _, m := range e.managers() {
 		var sb strings.Builder
 		fmt.Fprintf(&sb, "key %d locked=%d waited=%d ref=%d cur=%s holders=[", vn16(m.lockKey), m.locked, b2i(m.waited), m.refCount, e.lockDesc(m.currentLock))
-		if m.locks != nil {
+		if m.locks != nil && m.locked > 2000 {
+			fmt.Fprintf(&sb, "omitted:%d ", m.locks.Len())
+		} else if m.locks != nil {
 			if m.locks.fastQueue != nil {
 				for i := m.locks.fastIndex; i < len(m.locks.fastQueue); i++ {
 					sb.WriteString(e.lockDesc(m.locks.fastQueue[i]) + " ")
@@ -296,8 +333,124 @@ func vatoi(s string) uint64 {
 	return v
 }
 
+func (e *verifEngine) installHook() {
+	VerifPointHook = func(n int) {
+		t := e.cur
+		if t == nil || e.forced {
+			return // atomic actor (plain req, sweep, ack): no yield
+		}
+		t.ev <- n
+		<-t.resume
+	}
+}
+
+func (e *verifEngine) parseCmd(f []string) (*MemWaiterServerProtocol, *protocol.LockCommand) {
+	conn := e.conn(int(vatoi(f[1])))
+	c := &protocol.LockCommand{}
+	c.Magic, c.Version = protocol.MAGIC, protocol.VERSION
+	if f[2] == "L" {
+		c.CommandType = protocol.COMMAND_LOCK
+	} else {
+		c.CommandType = protocol.COMMAND_UNLOCK
+	}
+	c.RequestId = v16(vatoi(f[3]))
+	c.Flag = uint8(vatoi(f[4]))
+	c.DbId = 0
+	c.LockId = v16(vatoi(f[5]))
+	c.LockKey = v16(vatoi(f[6]))
+	c.TimeoutFlag = uint16(vatoi(f[7]))
+	c.Timeout = uint16(vatoi(f[8]))
+	c.ExpriedFlag = uint16(vatoi(f[9]))
+	c.Expried = uint16(vatoi(f[10]))
+	c.Count = uint16(vatoi(f[11]))
+	c.Rcount = uint8(vatoi(f[12]))
+	if f[13] != "-" {
+		d, err := hex.DecodeString(f[13][1:])
+		if err != nil {
+			panic(err)
+		}
+		c.Data = protocol.NewLockCommandDataFromOriginBytes(d)
+	}
+	return conn, c
+}
+
+func (e *verifEngine) goPanic() {
+	if r := recover(); r != nil {
+		fmt.Fprintf(e.out, "ev panic goroutine %v\n", r)
+		e.stopped = true
+	}
+}
+
+// start a scheduled request: it runs until its first yield point
+func (e *verifEngine) start(f []string) {
+	conn, c := e.parseCmd(f)
+	t := &vthread{resume: make(chan struct{}), ev: make(chan int)}
+	e.cur = t
+	go func() {
+		defer func() { t.ev <- -1 }()
+		defer e.goPanic()
+		_ = conn.ProcessLockCommand(c)
+	}()
+	p := <-t.ev
+	e.cur = nil
+	if p != -1 {
+		e.threads = append(e.threads, t)
+	}
+}
+
+func (e *verifEngine) resumeThread(j int) {
+	if len(e.threads) == 0 {
+		return
+	}
+	i := j % len(e.threads)
+	t := e.threads[i]
+	e.cur = t
+	t.resume <- struct{}{}
+	p := <-t.ev
+	// a request that finds its manager replaced starts over and parks at the same point again: keep going
+	for !t.wake && (p == 9 || p == 10) {
+		t.resume <- struct{}{}
+		p = <-t.ev
+	}
+	e.cur = nil
+	if p == -1 {
+		e.threads = append(e.threads[:i], e.threads[i+1:]...)
+	} else if !t.wake {
+		t.wake = true
+		e.threads = append(append(e.threads[:i:i], e.threads[i+1:]...), t)
+	}
+}
+
 func (e *verifEngine) action(f []string) {
 	switch f[0] {
+	case "start":
+		e.start(f)
+	case "resume":
+		e.resumeThread(int(vatoi(f[1])))
+	case "drain":
+		for n := 0; len(e.threads) > 0 && n < 100000; n++ {
+			e.resumeThread(0)
+		}
+	case "bulk":
+		// bulk n conn reqbase lockidbase key tflag timeout eflag expried count rcount : n LOCK requests with
+		// consecutive RequestIds / LockIds; only a summary is printed
+		n := int(vatoi(f[1]))
+		conn := e.conn(int(vatoi(f[2])))
+		for i := 0; i < n; i++ {
+			c := &protocol.LockCommand{}
+			c.Magic, c.Version, c.CommandType = protocol.MAGIC, protocol.VERSION, protocol.COMMAND_LOCK
+			c.RequestId = v16(vatoi(f[3]) + uint64(i))
+			c.LockId = v16(vatoi(f[4]) + uint64(i))
+			c.LockKey = v16(vatoi(f[5]))
+			c.TimeoutFlag, c.Timeout = uint16(vatoi(f[6])), uint16(vatoi(f[7]))
+			c.ExpriedFlag, c.Expried = uint16(vatoi(f[8])), uint16(vatoi(f[9]))
+			c.Count, c.Rcount = uint16(vatoi(f[10])), uint8(vatoi(f[11]))
+			e.quiet = true
+			_ = conn.ProcessLockCommand(c)
+			e.quiet = false
+		}
+		fmt.Fprintf(e.out, "ev bulk %d granted=%d other=%d\n", n, e.bulkOk, e.bulkOther)
+		e.bulkOk, e.bulkOther = 0, 0
 	case "req":
 		// req conn L|U reqid flag lockid key tflag timeout eflag expried count rcount data
 		conn := e.conn(int(vatoi(f[1])))
